@@ -98,6 +98,7 @@ func (p *Plenc) CodecForTypeWithTag(typ reflect.Type, tag string) (plenccodec.Co
 // registry for any existing codecs needed
 func (p *Plenc) CodecForTypeRegistry(registry plenccodec.CodecRegistry, typ reflect.Type, tag string) (plenccodec.Codec, error) {
 	c := registry.Load(typ, tag)
+	verifYield(plenccodec.VerifYieldRegistryLoaded)
 	if c != nil {
 		return c, nil
 	}
@@ -257,5 +258,6 @@ func (p *Plenc) CodecForTypeRegistry(registry plenccodec.CodecRegistry, typ refl
 		return nil, fmt.Errorf("could not find or create a codec for %s", typ)
 	}
 
+	verifYield(plenccodec.VerifYieldBeforeStore)
 	return registry.StoreOrSwap(typ, tag, c), nil
 }
